@@ -36,6 +36,8 @@ def nullable(e, aux):
         return nullable(d[2], aux)
     if k == 'back':
         return True
+    if k in ('where', 'apply', 'applyl'):
+        return nullable(e[1], aux)
     if k in ('opt', 'star', 'expect', 'expectnot', 'skip'):
         return True
     if k == 'plus':
